@@ -160,6 +160,24 @@ def merged_subobject_keys(ci, fn):
   init = ci.methods.get("__init__")
   if init is None:
     return out
+  # local option dictionaries (dict(a=a, ...) or {"a": a, ...}) that are
+  # handed on with ** carry their same-named entries
+  dictdefs = {}
+  for n in ast.walk(init):
+    if isinstance(n, ast.Assign) and len(n.targets) == 1 and isinstance(
+        n.targets[0], ast.Name):
+      v = n.value
+      ks = set()
+      if isinstance(v, ast.Call) and isinstance(v.func, ast.Name) and \
+          v.func.id == "dict":
+        ks = {k.arg for k in v.keywords if k.arg and isinstance(
+            k.value, ast.Name) and k.value.id == k.arg}
+      elif isinstance(v, ast.Dict):
+        ks = {k.value for k, x in zip(v.keys, v.values) if isinstance(
+            k, ast.Constant) and isinstance(x, ast.Name) and
+              x.id == k.value}
+      if ks:
+        dictdefs.setdefault(n.targets[0].id, set()).update(ks)
   for n in ast.walk(init):
     if isinstance(n, ast.Assign) and isinstance(n.value, ast.Call):
       for t in n.targets:
@@ -168,6 +186,8 @@ def merged_subobject_keys(ci, fn):
             if k.arg and isinstance(k.value, ast.Name) and \
                 k.value.id == k.arg:
               out.add(k.arg)
+            elif k.arg is None and isinstance(k.value, ast.Name):
+              out |= dictdefs.get(k.value.id, set())
   return out
 
 
@@ -371,8 +391,12 @@ def layer_pe(repo, ci, name, own_constraints=False):
     opts = dict(k)
     m = Mock("BatchNormalization", dict(opts))
     m.attrs["__options__"] = opts
+    # (Keras reports every core option, the ones it was not handed with
+    # their defaults)
+    core = dict(axis=-1, momentum=F(99, 100), epsilon=F(1, 1000),
+                center=True, scale=True)
     m.attrs["get_config"] = lambda pe__, a_, k_: dict(
-        opts, name="batch_normalization", dtype="float32")
+        core, **dict(opts, name="batch_normalization", dtype="float32"))
     return m
   eo["*.BatchNormalization"] = inner_bn
   if own_constraints:
